@@ -14,6 +14,16 @@ Definition callers_of (m : string) : list string :=
 Lemma swap_only_in_write : callers_of "swap_any/2" = ["UntypedEntry::write"].
 Proof. vm_compute. reflexivity. Qed.
 
+(* the cell that holds a stored value is dereferenced in three functions only: `read` (under the
+   entry's lock, see Tie/Entry.v read_takes_lock), `write` (under the write lock, write_accepted) and
+   the accessor of non-reloadable entries (which panics on a reloadable one); every other reader
+   (copied, cloned, guards, untyped handles) therefore goes through one of them *)
+Lemma value_cell_touched_only_by :
+  callers_of "value.get/0" = ["EntryStorage::get"; "EntryStorage::read"; "UntypedEntry::write"] /\
+  callers_of "value.get_mut/0" = ["UntypedEntry::write"] /\
+  callers_of "value.into_inner/0" = ["CacheEntry::into_inner"].
+Proof. vm_compute. repeat split. Qed.
+
 (* ... reached only through the one-argument `write` of handles, called by reload_untyped ... *)
 Lemma write_only_from_reload_untyped :
   callers_of "write/1" = ["UntypedHandle::write"; "AnyCache::reload_untyped"].
